@@ -26,7 +26,7 @@ ASSUMPTIONS = ['"secret" is matched as a lower-case substring of the resource na
                'visible-control expectations are dropped for a host that contains a resource whose repr raises (the whole section is then reported as failed inline)']
 REQUIRED_REACH = ['secret-resources-rendered', 'redaction-marker-seen:html', 'redaction-marker-seen:json', 'visible-control-seen:html',
                   'visible-control-seen:json', 'json-view-parsed', 'cookie-key-hosts', 'depth:2', 'name:prefix', 'name:infix', 'name:suffix',
-                  'value:bytes', 'value:rawbytes', 'value:number', 'value:nested', 'value:object-repr', 'value:long-nospace', 'value:long-words', 'value:url-like', 'value:tuple', 'value:surrogate-str', 'value:bad-repr', 'inline-section-failure-seen', 'host-context-processor', 'route:render-arg-object',
+                  'value:bytes', 'value:rawbytes', 'value:number', 'value:nested', 'value:object-repr', 'value:long-nospace', 'value:long-words', 'value:url-like', 'value:tuple', 'value:surrogate-str', 'value:nonascii', 'value:mixed-keys', 'value:self-ref', 'value:equal-twin', 'value:bad-repr', 'inline-section-failure-seen', 'host-context-processor', 'route:render-arg-object',
                   'fault-injected', 'same-meta-application-asked-through-two-applications']
 NSHARDS = 16
 SECRET_NAMES = {'prefix': ['secret_key', 'secret-token', 'secretX', 'secret_' + 'x' * 60],
@@ -74,6 +74,16 @@ def make_value(kind, sentinel):
         return [(sentinel, 4, 2), (sentinel,), Point(sentinel, 7), ((sentinel, 1), ())][int(sentinel[-3], 36) % 4]
     if kind == 'surrogate-str':   # what os.fsdecode makes of a file name that is not UTF-8
         return '/srv/data/' + sentinel + '/upl\udcf6ads'
+    if kind == 'nonascii':        # readable text is to stay readable
+        return 'S\u00e3o Paulo \u2603 ' + sentinel + ' \u65e5\u672c'
+    if kind == 'mixed-keys':      # sortable by nobody: keys of different types
+        return {200: sentinel, 'default': 'Error', None: 1, (1, 2): 'tuple key'}
+    if kind == 'self-ref':        # a container that holds itself
+        lst = [sentinel, {'k': 1}]
+        lst.append(lst)
+        return lst
+    if kind == 'equal-twin':      # equal to (and hashing like) a value of another type that some other resource may hold
+        return [True, 1.0, 1, (1, 0), (True, False), 0.0, False, -0.0][int(sentinel[-3], 36) % 8]
     if kind == 'long-words':
         return sentinel + ' lorem ipsum dolor' * 12
     return BadRepr()
@@ -99,7 +109,7 @@ def gen_host(rng, n):
         if name in used:
             continue
         used.add(name)
-        kind = rng.pick(['str', 'str', 'bytes', 'rawbytes', 'number', 'nested', 'object-repr', 'long-nospace', 'long-words', 'url-like', 'tuple', 'surrogate-str'] + (['bad-repr'] if rng.chance(0.15) else []))
+        kind = rng.pick(['str', 'str', 'bytes', 'rawbytes', 'number', 'nested', 'object-repr', 'long-nospace', 'long-words', 'url-like', 'tuple', 'surrogate-str', 'nonascii', 'mixed-keys', 'self-ref', 'equal-twin', 'equal-twin'] + (['bad-repr'] if rng.chance(0.15) else []))
         res.append({'name': name, 'secret': secret, 'pos': pos, 'kind': kind, 'sentinel': sentinel(kind)})
     routes = [rng.pick(['func', 'lambda', 'method', 'callable', 'static', 'classm', 'decorated', 'reroute', 'staticfile', 'staticapp',
                         'subapp', 'render-arg', 'render-arg-object', 'partial-render', 'methods'])
@@ -241,7 +251,11 @@ def build_host(host):
             routes.append(Route(p, lambda: {'a': 1}, 'some_template.html' if host['factory'] else (lambda context: Response('r'))))
         elif kind == 'render-arg-object':
             # a render argument that is neither a callable nor a string (for a render factory to interpret)
-            arg = [ReprCarrier('tmpl'), ('name.html', 2), {'template': ReprCarrier('t')}, b'raw.html', 7][i % 5]
+            spec = ReprCarrier('spec')          # an object that reaches itself through its attributes (spec <-> factory)
+            spec.factory = ReprCarrier('factory')
+            spec.factory.specs = [spec]
+            spec.parent = spec
+            arg = [ReprCarrier('tmpl'), ('name.html', 2), {'template': ReprCarrier('t')}, b'raw.html', 7, spec, {'self': spec}][i % 7]
             routes.append(Route(p, lambda: {'a': 1}, arg if host['factory'] else (lambda context: Response('r'))))
         elif kind == 'partial-render':
             routes.append(Route(p, lambda: {'a': 1}, K()))
@@ -411,6 +425,18 @@ def _judge(sh, host, record, fi):
                     bad('secret-not-marked-redacted', 'secret resources are shown with different texts %r, not one marker' % sorted(markers))
                     continue
                 for r in visible:
+                    if r['kind'] == 'equal-twin':
+                        # True, 1 and 1.0 (or (1, 0) and (True, False)) are equal and hash alike - and are different values
+                        want = repr(make_value('equal-twin', r['sentinel']))
+                        if listed.get(r['name']) != want:
+                            bad('non-secret-resource-hidden', 'resource %r is listed as %r, its value is %s' % (r['name'], listed.get(r['name']), want))
+                            break
+                        sh.hit('visible-control-seen:json')
+                        continue
+                    if r['kind'] == 'nonascii' and r['name'] in listed and 'S\u00e3o Paulo \u2603' not in str(listed[r['name']]):
+                        bad('non-secret-resource-hidden', 'resource %r is listed as %r: its (short, readable) text should be shown as it is'
+                            % (r['name'], listed.get(r['name'])))
+                        break
                     if r['name'] not in listed or r['sentinel'] not in str(listed[r['name']]):
                         bad('non-secret-resource-hidden', 'resource %r is listed as %r, its value should be visible' % (r['name'], listed.get(r['name'])))
                         break
@@ -426,6 +452,11 @@ def _judge(sh, host, record, fi):
             if secrets:
                 sh.hit('redaction-marker-seen:html')
             for r in visible:
+                if r['kind'] == 'equal-twin':
+                    continue            # short common texts (True, 1.0): judged in the JSON view, where each value has its own field
+                if r['kind'] == 'nonascii' and 'S\u00e3o Paulo \u2603' not in text:
+                    bad('non-secret-resource-hidden', 'the (short, readable) text of %r does not appear on the page as it is' % r['name'])
+                    break
                 if r['sentinel'] not in text:
                     bad('non-secret-resource-hidden', 'the value of %r does not appear on the page' % r['name'])
                     break
